@@ -1,5 +1,6 @@
 (* C11 — One total order governs comparison, sorting, grouping and key order.
-   Statements only; every theorem is closed by [exact] of a lemma proved in coq/c11/*.v.
+   Statements only: each named Definition C11_xxx : Prop is one statement; the Theorems at the end prove
+   conjunctions of them, each closed by [exact] of lemmas proved in coq/c11/*.v.
    [compare] is the model of gojq.Compare (Value.v), [good] the property's domain: NaN-free values whose
    floats are finite with magnitude < 2^53, integers of any size as int or *big.Int (json.Number is
    normalised by parseNumber before Compare looks at it).  [denote] forgets number representations
@@ -14,67 +15,41 @@ Open Scope nat_scope.
 (* ---------- 1. Compare is a total preorder on the domain ---------- *)
 
 (* the number rows compute the order of the exact values, through float64(int)/bigToFloat rounding *)
-Theorem C11_numbers_exact : forall a b, good_num a -> good_num b -> cmp_num a b = Rcompare (num_R a) (num_R b).
-Proof. exact cmp_num_exact. Qed.
-Print Assumptions C11_numbers_exact.
+Definition C11_numbers_exact : Prop := forall a b, good_num a -> good_num b -> cmp_num a b = Rcompare (num_R a) (num_R b).
 
-Theorem C11_reflexive : forall a, good a -> compare a a = Eq.
-Proof. exact compare_refl. Qed.
-Print Assumptions C11_reflexive.
+Definition C11_reflexive : Prop := forall a, good a -> compare a a = Eq.
 
-Theorem C11_opposite : forall a b, good a -> good b -> compare b a = CompOpp (compare a b).
-Proof. exact compare_opp. Qed.
-Print Assumptions C11_opposite.
+Definition C11_opposite : Prop := forall a b, good a -> good b -> compare b a = CompOpp (compare a b).
 
 (* antisymmetric up to value equality: Compare-equal = same denotation *)
-Theorem C11_antisymmetric : forall a b, good a -> good b -> (compare a b = Eq <-> denote a = denote b).
-Proof. exact compare_eq_denote. Qed.
-Print Assumptions C11_antisymmetric.
+Definition C11_antisymmetric : Prop := forall a b, good a -> good b -> (compare a b = Eq <-> denote a = denote b).
 
-Theorem C11_antisymmetric_le : forall a b, good a -> good b -> le a b -> le b a -> compare a b = Eq.
-Proof. exact le_antisym. Qed.
-Print Assumptions C11_antisymmetric_le.
+Definition C11_antisymmetric_le : Prop := forall a b, good a -> good b -> le a b -> le b a -> compare a b = Eq.
 
-Theorem C11_transitive : forall a b c, good a -> good b -> good c -> le a b -> le b c -> le a c.
-Proof. exact le_trans. Qed.
-Print Assumptions C11_transitive.
+Definition C11_transitive : Prop := forall a b c, good a -> good b -> good c -> le a b -> le b c -> le a c.
 
 (* the strong forms: < and > chains, and Compare-equal values are interchangeable on either side *)
-Theorem C11_transitive_strict : forall a b c o, good a -> good b -> good c ->
+Definition C11_transitive_strict : Prop := forall a b c o, good a -> good b -> good c ->
   compare a b = o -> compare b c = o -> compare a c = o.
-Proof. exact compare_trans. Qed.
-Print Assumptions C11_transitive_strict.
 
-Theorem C11_equal_left : forall a b c, good a -> good b -> good c -> compare a b = Eq -> compare a c = compare b c.
-Proof. exact compare_eq_l. Qed.
-Print Assumptions C11_equal_left.
+Definition C11_equal_left : Prop := forall a b c, good a -> good b -> good c -> compare a b = Eq -> compare a c = compare b c.
 
-Theorem C11_equal_right : forall a b c, good a -> good b -> good c -> compare b c = Eq -> compare a c = compare a b.
-Proof. exact compare_eq_r. Qed.
-Print Assumptions C11_equal_right.
+Definition C11_equal_right : Prop := forall a b c, good a -> good b -> good c -> compare b c = Eq -> compare a c = compare a b.
 
-Theorem C11_total : forall a b, good a -> good b -> le a b \/ le b a.
-Proof. exact le_total. Qed.
-Print Assumptions C11_total.
+Definition C11_total : Prop := forall a b, good a -> good b -> le a b \/ le b a.
 
 (* ==, !=, <, <=, >, >= are the projections of Compare (for ALL values), coherent on the domain *)
-Theorem C11_operators : forall a b,
+Definition C11_operators : Prop := forall a b,
   (op_eq a b = true <-> compare a b = Eq) /\ (op_ne a b = true <-> compare a b <> Eq) /\
   (op_lt a b = true <-> compare a b = Lt) /\ (op_le a b = true <-> compare a b <> Gt) /\
   (op_gt a b = true <-> compare a b = Gt) /\ (op_ge a b = true <-> compare a b <> Lt).
-Proof. exact ops_projections. Qed.
-Print Assumptions C11_operators.
 
-Theorem C11_operators_coherent : forall a b, good a -> good b ->
+Definition C11_operators_coherent : Prop := forall a b, good a -> good b ->
   op_gt a b = op_lt b a /\ op_ge a b = op_le b a /\ op_le a b = negb (op_lt b a) /\
   op_eq a b = op_le a b && op_le b a /\ op_ne a b = negb (op_eq a b) /\ op_eq a b = op_eq b a.
-Proof. exact ops_coherent. Qed.
-Print Assumptions C11_operators_coherent.
 
 (* the executable domain test used by the check decides the domain *)
-Theorem C11_domain_decidable : forall v, goodb v = true <-> good v.
-Proof. exact goodb_spec. Qed.
-Print Assumptions C11_domain_decidable.
+Definition C11_domain_decidable : Prop := forall v, goodb v = true <-> good v.
 
 (* ---------- 2. the consumers of the order (Natives.v copies func.go / operator.go) ----------
    Items are (value, key) pairs as in func.go sortItem; `sort`, `unique`, `min`, `max` use the value as
@@ -83,74 +58,50 @@ Print Assumptions C11_domain_decidable.
    ordered arrangement that keeps every class of Compare-equal keys in input order is that list, so the
    only assumption on sort.SliceStable is that it is what its name says. *)
 
-Theorem C11_sort_permutation : forall l : list vitem, Permutation (sort_items compare l) l.
-Proof. exact sort_permutation. Qed.
-Print Assumptions C11_sort_permutation.
+Definition C11_sort_permutation : Prop := forall l : list vitem, Permutation (sort_items compare l) l.
 
-Theorem C11_sort_ordered : forall l : list vitem, good_keys l -> StronglySorted key_le (sort_items compare l).
-Proof. exact sort_ordered. Qed.
-Print Assumptions C11_sort_ordered.
+Definition C11_sort_ordered : Prop := forall l : list vitem, good_keys l -> StronglySorted key_le (sort_items compare l).
 
 (* stable: the items whose key is Compare-equal to k appear in their input order, for every k *)
-Theorem C11_sort_stable : forall (l : list vitem) k, good k -> good_keys l ->
+Definition C11_sort_stable : Prop := forall (l : list vitem) k, good k -> good_keys l ->
   filter (same_class k) (sort_items compare l) = filter (same_class k) l.
-Proof. exact sort_stable. Qed.
-Print Assumptions C11_sort_stable.
 
-Theorem C11_stable_sort_unique : forall l out : list vitem,
+Definition C11_stable_sort_unique : Prop := forall l out : list vitem,
   good_keys l -> good_keys out -> StronglySorted key_le out ->
   (forall k, good k -> filter (same_class k) out = filter (same_class k) l) ->
   out = sort_items compare l.
-Proof. exact stable_sort_is_unique. Qed.
-Print Assumptions C11_stable_sort_unique.
 
 (* plain `sort` on values *)
-Theorem C11_sort_values : forall l, Forall good l ->
+Definition C11_sort_values : Prop := forall l, Forall good l ->
   Permutation (sort_values l) l /\ StronglySorted le (sort_values l).
-Proof. exact sort_values_spec. Qed.
-Print Assumptions C11_sort_values.
 
 (* group_by: the groups partition the sorted input (concatenation gives it back), each group is a
    first item followed by items with Compare-equal keys, and every item of an earlier group is
    strictly smaller than every item of a later group (so the runs are maximal). *)
-Theorem C11_group_by_partition : forall l : list vitem,
+Definition C11_group_by_partition : Prop := forall l : list vitem,
   concat (groups compare (sort_items compare l)) = sort_items compare l.
-Proof. exact group_by_partition. Qed.
-Print Assumptions C11_group_by_partition.
 
-Theorem C11_group_by_runs : forall l : list vitem, Forall (is_run compare) (groups compare (sort_items compare l)).
-Proof. exact group_by_runs. Qed.
-Print Assumptions C11_group_by_runs.
+Definition C11_group_by_runs : Prop := forall l : list vitem, Forall (is_run compare) (groups compare (sort_items compare l)).
 
-Theorem C11_group_by_maximal : forall l : list vitem, good_keys l ->
+Definition C11_group_by_maximal : Prop := forall l : list vitem, good_keys l ->
   StronglySorted (grp_lt compare) (groups compare (sort_items compare l)).
-Proof. exact group_by_maximal. Qed.
-Print Assumptions C11_group_by_maximal.
 
 (* unique: sort, then the first item of every group; no two results are Compare-equal *)
-Theorem C11_unique_first_of_groups : forall l : list vitem,
+Definition C11_unique_first_of_groups : Prop := forall l : list vitem,
   Forall2 (fun u grp => exists t, grp = u :: t) (uniq compare (sort_items compare l)) (groups compare (sort_items compare l)).
-Proof. exact unique_first_of_groups. Qed.
-Print Assumptions C11_unique_first_of_groups.
 
-Theorem C11_unique_strictly_increasing : forall l : list vitem, good_keys l ->
+Definition C11_unique_strictly_increasing : Prop := forall l : list vitem, good_keys l ->
   StronglySorted key_lt (uniq compare (sort_items compare l)).
-Proof. exact unique_strictly_increasing. Qed.
-Print Assumptions C11_unique_strictly_increasing.
 
 (* min_by picks the FIRST minimum, max_by the LAST maximum (what minMaxBy's loop does) *)
-Theorem C11_min_by_first_minimum : forall (l : list vitem) j b, good_keys l ->
+Definition C11_min_by_first_minimum : Prop := forall (l : list vitem) j b, good_keys l ->
   min_max_by compare true l = Some (j, b) -> first_min compare l j b.
-Proof. exact min_by_is_first_minimum. Qed.
-Print Assumptions C11_min_by_first_minimum.
 
-Theorem C11_max_by_last_maximum : forall (l : list vitem) j b, good_keys l ->
+Definition C11_max_by_last_maximum : Prop := forall (l : list vitem) j b, good_keys l ->
   min_max_by compare false l = Some (j, b) -> last_max compare l j b.
-Proof. exact max_by_is_last_maximum. Qed.
-Print Assumptions C11_max_by_last_maximum.
 
 (* bsearch on every sorted in-domain array and every in-domain target *)
-Theorem C11_bsearch : forall vs t, Forall good vs -> good t -> StronglySorted le vs ->
+Definition C11_bsearch : Prop := forall vs t, Forall good vs -> good t -> StronglySorted le vs ->
   let r := bsearch compare vs t in
   ((0 <= r)%Z ->
      exists x, nth_error vs (Z.to_nat r) = Some x /\ compare x t = Eq /\
@@ -159,25 +110,98 @@ Theorem C11_bsearch : forall vs t, Forall good vs -> good t -> StronglySorted le
      let p := Z.to_nat (- r - 1) in
      p <= length vs /\
      forall k y, nth_error vs k = Some y -> (k < p -> compare y t = Lt) /\ (p <= k -> compare y t = Gt)).
-Proof. exact bsearch_sorted. Qed.
-Print Assumptions C11_bsearch.
 
 (* array subtraction removes exactly the Compare-equal elements and keeps the order of the rest *)
-Theorem C11_array_sub_membership : forall l r x,
+Definition C11_array_sub_membership : Prop := forall l r x,
   In x (arr_sub compare l r) <-> In x l /\ forall y, In y r -> compare x y <> Eq.
-Proof. exact array_sub_membership. Qed.
-Print Assumptions C11_array_sub_membership.
 
-Theorem C11_array_sub_is_filter : forall l r,
+Definition C11_array_sub_is_filter : Prop := forall l r,
   arr_sub compare l r = filter (fun x => forallb (fun y => negb (is_eq (compare x y))) r) l.
-Proof. exact array_sub_is_filter. Qed.
-Print Assumptions C11_array_sub_is_filter.
 
 (* keys (= object iteration order = output key order in the model): strictly ascending in the value order *)
-Theorem C11_object_keys_sorted : forall m, wfb (VObj m) = true ->
+Definition C11_object_keys_sorted : Prop := forall m, wfb (VObj m) = true ->
   StronglySorted (fun a b => compare a b = Lt) (obj_keys m).
+
+(* ---------- the theorems: every statement above, proved (one Print Assumptions per group, they are slow) ---------- *)
+
+(* Compare is a total preorder on the domain, and Compare-equality is equality of denotations *)
+Theorem C11_total_preorder_thm :
+  C11_numbers_exact /\
+  C11_reflexive /\
+  C11_opposite /\
+  C11_antisymmetric /\
+  C11_antisymmetric_le /\
+  C11_transitive /\
+  C11_transitive_strict /\
+  C11_equal_left /\
+  C11_equal_right /\
+  C11_total.
+Proof. exact (conj cmp_num_exact (conj compare_refl (conj compare_opp (conj compare_eq_denote (conj le_antisym (conj le_trans (conj compare_trans (conj compare_eq_l (conj compare_eq_r le_total))))))))). Qed.
+Print Assumptions C11_total_preorder_thm.
+
+(* the six operators are the projections of Compare *)
+Theorem C11_operators_thm :
+  C11_operators /\
+  C11_operators_coherent /\
+  C11_domain_decidable.
+Proof. exact (conj ops_projections (conj ops_coherent goodb_spec)). Qed.
+Print Assumptions C11_operators_thm.
+
+(* sort / sort_by return an ordered stable permutation *)
+Theorem C11_sort_thm :
+  C11_sort_permutation /\
+  C11_sort_ordered /\
+  C11_sort_stable /\
+  C11_sort_values.
+Proof. exact (conj sort_permutation (conj sort_ordered (conj sort_stable sort_values_spec))). Qed.
+Print Assumptions C11_sort_thm.
+
+(* the stable ordered arrangement is unique (the only assumption on sort.SliceStable) *)
+Theorem C11_stable_sort_unique_thm :
+  C11_stable_sort_unique.
+Proof. exact stable_sort_is_unique. Qed.
+Print Assumptions C11_stable_sort_unique_thm.
+
+(* group_by partitions the sorted input into maximal runs of Compare-equal keys *)
+Theorem C11_group_by_thm :
+  C11_group_by_partition /\
+  C11_group_by_runs /\
+  C11_group_by_maximal.
+Proof. exact (conj group_by_partition (conj group_by_runs group_by_maximal)). Qed.
+Print Assumptions C11_group_by_thm.
+
+(* unique = sort, then the first of every run; results pairwise Compare-different *)
+Theorem C11_unique_thm :
+  C11_unique_first_of_groups /\
+  C11_unique_strictly_increasing.
+Proof. exact (conj unique_first_of_groups unique_strictly_increasing). Qed.
+Print Assumptions C11_unique_thm.
+
+(* min_by = first minimum, max_by = last maximum *)
+Theorem C11_min_max_by_thm :
+  C11_min_by_first_minimum /\
+  C11_max_by_last_maximum.
+Proof. exact (conj min_by_is_first_minimum max_by_is_last_maximum). Qed.
+Print Assumptions C11_min_max_by_thm.
+
+(* bsearch on sorted arrays *)
+Theorem C11_bsearch_thm :
+  C11_bsearch.
+Proof. exact bsearch_sorted. Qed.
+Print Assumptions C11_bsearch_thm.
+
+(* array subtraction *)
+Theorem C11_array_sub_thm :
+  C11_array_sub_membership /\
+  C11_array_sub_is_filter.
+Proof. exact (conj array_sub_membership array_sub_is_filter). Qed.
+Print Assumptions C11_array_sub_thm.
+
+(* object keys are strictly ascending *)
+Theorem C11_object_keys_thm :
+  C11_object_keys_sorted.
 Proof. exact object_keys_sorted. Qed.
-Print Assumptions C11_object_keys_sorted.
+Print Assumptions C11_object_keys_thm.
 
 (* ---------- non-vacuity, and why the domain excludes NaN and floats >= 2^53 ---------- *)
 Definition ex_vals : list value :=
